@@ -278,6 +278,15 @@ def extra_entries():
     add("ProbCover(dict)", "ProbCover", {"cluster_algo_dict": {"n_init": 2}}, model=None, rows=False, cost=2)
     add("DropQuery(dict)", "DropQuery", {"cluster_algo_dict": {"n_init": 2}}, model="clf_embed", rows=False, cost=2)
     add("GreedySamplingX(metric_dict)", "GreedySamplingX", {"metric": "minkowski", "metric_dict": {"p": 1}}, model=None)
+    # further documented parameter values
+    add("ValueOfInformationEER(subtract_current)", "ValueOfInformationEER", {"subtract_current": True}, model="clf",
+        rows=False, cost=2)
+    add("ValueOfInformationEER(normalize)", "ValueOfInformationEER", {"normalize": True, "consider_labeled": False},
+        model="clf", rows=False, cost=2)
+    add("MonteCarloEER(subtract_current)", "MonteCarloEER", {"subtract_current": True}, model="clf", cost=2)
+    add("EpistemicUncertaintySampling(logreg)", "EpistemicUncertaintySampling", {}, model="clf_logreg", samplewise=True)
+    add("UncertaintySampling(margin,cost_matrix)", "UncertaintySampling",
+        {"method": "margin_sampling", "cost_matrix": np.array([[0.0, 2.0], [1.0, 0.0]])}, model="clf", samplewise=True)
     # caller-owned array / list / dict valued parameters (deliberately unsorted, float64, C-contiguous:
     # the form in which validation helpers hand back a view instead of a copy)
     cm = np.array([[0.0, 2.0], [1.0, 0.0]])
